@@ -316,7 +316,16 @@ func FieldOptions(t *rapid.T, f *ir.File, c *ir.Config, o KOpts) {
 				set = map[string]bool{}
 				excludedPerMsg[oc.Message] = set
 			}
-			if set[oc.Field.Name] || len(set)+1 >= len(msg.Fields) {
+			real := 0 // fields that leave something to convert (an embedded message without fields does not)
+			for _, mf := range msg.Fields {
+				if mf.Embed {
+					if sub := f.Msg(mf.Type); sub != nil && len(sub.Fields) == 0 {
+						continue
+					}
+				}
+				real++
+			}
+			if set[oc.Field.Name] || len(set)+1 >= real {
 				continue
 			}
 			set[oc.Field.Name] = true
